@@ -292,6 +292,26 @@ def gen6(files):
     return muts
 
 
+def gen7(files):
+    """Seventh operator set: a value modified in place between being built and being used — `let x = e;` becomes
+    `let mut x = e; x.clear();` / `x.reverse();` / `x.truncate(1);` / `x.pop();` (whatever compiles), and an existing
+    `let mut x = e;` gets the same treatment.  These writes are invisible to a term that says how a value was built."""
+    muts = []
+    for f in files:
+        src = open(os.path.join(SRC, f)).read()
+        cut = src.find("#[cfg(test)]\nmod ")
+        body = src if cut < 0 else src[:cut]
+        for ln, line in enumerate(body.split("\n")):
+            m = re.match(r"^(\s*)let (mut )?(\w+)(: [^=]+)? = (.+);$", line)
+            if not m or m.group(3) == "_":
+                continue
+            ind, name = m.group(1), m.group(3)
+            decl = "%slet mut %s%s = %s;" % (ind, name, m.group(4) or "", m.group(5))
+            for op in ("clear()", "reverse()", "truncate(1)", "pop()", "sort()", "dedup()"):
+                muts.append({"file": f, "line": ln + 1, "old": line, "new": "%s %s.%s;" % (decl, name, op), "rule": "in-place %s after let" % op})
+    return muts
+
+
 def sh(cmd, cwd=None, env=None, timeout=900):
     """Run in its own process group with an address-space limit; on timeout kill the whole group
     (a mutant can loop forever or allocate without bound inside the test binary)."""
@@ -378,7 +398,7 @@ def main():
             files = a.pop(0).split(",")
         elif x == "--out":
             outp = a.pop(0)
-        elif x in ("--ops2", "--ops3", "--ops4", "--ops5", "--ops6"):
+        elif x in ("--ops2", "--ops3", "--ops4", "--ops5", "--ops6", "--ops7"):
             pass
     os.makedirs(ROOT, exist_ok=True)
     shutil.rmtree(SRC, ignore_errors=True)
@@ -396,7 +416,7 @@ def main():
                 if f.endswith(".rs") and f not in ("tests.rs",) and "/tests" not in dp:
                     files.append(os.path.relpath(os.path.join(dp, f), "/repo"))
         files.sort()
-    muts = gen6(files) if "--ops6" in sys.argv else gen5(files) if "--ops5" in sys.argv else gen4(files) if "--ops4" in sys.argv else gen3(files) if "--ops3" in sys.argv else (gen2(files) if "--ops2" in sys.argv else gen(files))
+    muts = gen7(files) if "--ops7" in sys.argv else gen6(files) if "--ops6" in sys.argv else gen5(files) if "--ops5" in sys.argv else gen4(files) if "--ops4" in sys.argv else gen3(files) if "--ops3" in sys.argv else (gen2(files) if "--ops2" in sys.argv else gen(files))
     if limit:
         muts = muts[:limit]
     print("%d mutants over %d files" % (len(muts), len(files)))
